@@ -1,6 +1,53 @@
 """C11 -- conditional and range responses: integer/Optional arithmetic core."""
 
 
+class FakeChunks:
+    """native realiser of the ChunkIter model: fixed block size k, optionally seekable"""
+
+    def __init__(self, whole, pos, k, seekable):
+        self.whole, self.pos, self.k, self.seekable_ = whole, pos, k, seekable
+
+    def __iter__(self):
+        return self
+
+    def __next__(self):
+        if self.pos >= len(self.whole):
+            raise StopIteration
+        out = self.whole[self.pos:self.pos + self.k]
+        self.pos += len(out)
+        return out
+
+    def seek(self, n):
+        self.pos = n
+
+    def tell(self):
+        return self.pos
+
+    def seekable(self):
+        return self.seekable_
+
+
+def replay_rw(reg, c, inputs):
+    """bounded native search around the solver's model: block sizes 1..len(whole)+1"""
+    from pyvc import runtime
+    wsgi = runtime.import_real("werkzeug/wsgi.py")
+    nc = runtime.NativeContract(reg, c)
+    s = inputs["self"]
+    it = s["iterable"]
+    res = None
+    for k in range(1, len(it["whole"]) + 2):
+        rw = object.__new__(wsgi._RangeWrapper)
+        rw.iterable = FakeChunks(it["whole"], it["pos"], k, s["seekable"])
+        for f in ("byte_range", "start_byte", "end_byte", "read_length", "seekable", "end_reached"):
+            setattr(rw, f, s[f])
+        fails = nc.check_call(rw.__next__, [], {}, {"self": rw})
+        if fails:
+            return [f"block size {k}: " + "; ".join(fails)]
+        if fails is not None:
+            res = []
+    return res
+
+
 def register(reg):
     P = "C11"
     # what "a valid byte range" means (RFC 7233 / the property): both bounds or none;
@@ -54,4 +101,129 @@ def register(reg):
             "(result is None) == (self.units != 'bytes' or length is None or len(self.ranges) != 1 or "
             " not satisfiable(self.ranges[0][0], self.ranges[0][1], length))",
         ],
+    )
+
+    # ---- _RangeWrapper: the body of a 206 is exactly whole[start : start + byte_range] ----------
+    Chunks = reg.model("ChunkIter", fields={"whole": "bytes", "pos": "int", "seekable_": "bool"})
+    reg.contract(
+        "model:ChunkIter.__next__", prop=P, trusted=True, param_names=["self"], returns="bytes",
+        modifies=["self.pos"],
+        ensures=["len(result) >= 1", "old(self.pos) + len(result) <= len(self.whole)",
+                 "result == self.whole[old(self.pos):old(self.pos) + len(result)]",
+                 "self.pos == old(self.pos) + len(result)"],
+        raises={"StopIteration": "self.pos >= len(self.whole)"},
+        note="an iterator over non-empty chunks that concatenate to `whole` (block size arbitrary)",
+    )
+    reg.contract("model:ChunkIter.seek", prop=P, trusted=True, param_names=["self", "n"], requires=["n >= 0"],
+                 modifies=["self.pos"], ensures=["self.pos == n"])
+    reg.contract("model:ChunkIter.tell", prop=P, trusted=True, param_names=["self"], returns="int",
+                 ensures=["result == self.pos"])
+    RW = reg.model("_RangeWrapper", cls="werkzeug/wsgi.py:_RangeWrapper",
+                   fields={"iterable": Chunks, "byte_range": "Optional[int]", "start_byte": "int",
+                           "end_byte": "Optional[int]", "read_length": "int", "seekable": "bool", "end_reached": "bool"})
+    reg.spec("J_rw(self)",
+             "0 <= self.start_byte and (self.byte_range is None) == (self.end_byte is None) "
+             "and (self.byte_range is None or (self.byte_range >= 0 and self.end_byte == self.start_byte + self.byte_range)) "
+             "and self.read_length == self.iterable.pos and 0 <= self.iterable.pos "
+             "and (self.iterable.pos <= len(self.iterable.whole) or (self.seekable and self.read_length == self.start_byte)) "
+             "and (self.read_length == 0 or self.read_length >= self.start_byte) "
+             "and (self.end_reached or self.read_length == 0 or self.end_byte is None or self.read_length < self.end_byte)")
+    reg.spec("cursor(self)", "self.start_byte if self.read_length == 0 else self.read_length")
+    reg.contract(
+        "werkzeug/wsgi.py:_RangeWrapper._first_iteration", prop=P, inline=True,
+        loops={0: {
+            "types": {"chunk": "Optional[bytes]"},
+            "modifies": ["self.read_length", "self.iterable.pos"],
+            "inv": ["self.read_length == self.iterable.pos", "self.iterable.pos <= len(self.iterable.whole)",
+                    "0 <= self.read_length",
+                    "(chunk is None) == (self.read_length == 0)",
+                    "chunk is None or (len(chunk) >= 1 and len(chunk) <= self.read_length and "
+                    " chunk == self.iterable.whole[self.read_length - len(chunk):self.read_length] and "
+                    " self.read_length - len(chunk) <= self.start_byte)",
+                    "not self.end_reached"],
+            "decreases": "len(self.iterable.whole) - self.read_length",
+        }},
+    )
+    reg.contract(
+        "werkzeug/wsgi.py:_RangeWrapper.__next__", prop=P, self_model=RW, returns="bytes", replay=replay_rw,
+        requires=["J_rw(self)"],
+        ensures=[
+            "len(result) >= 1",
+            "result == self.iterable.whole[old(cursor(self)):old(cursor(self)) + len(result)]",
+            "old(cursor(self)) + len(result) <= len(self.iterable.whole)",
+            "self.end_byte is None or old(cursor(self)) + len(result) <= self.end_byte",
+            # nothing skipped, nothing repeated: the next call continues where this one stopped
+            "self.end_reached or self.read_length == old(cursor(self)) + len(result)",
+            # a chunk is cut short only at the end of the requested range
+            "implies(self.end_reached, self.end_byte is not None and (old(cursor(self)) + len(result) == self.end_byte "
+            "        or self.iterable.pos == len(self.iterable.whole) and self.read_length < old(cursor(self)) + len(result) + 1))",
+            "J_rw(self)",
+            "self.start_byte == old(self.start_byte) and self.end_byte == old(self.end_byte) and self.byte_range == old(self.byte_range)",
+        ],
+        raises={"StopIteration": "old(self.end_reached) or (self.end_byte is not None and old(cursor(self)) >= self.end_byte) "
+                                 "or self.iterable.pos >= len(self.iterable.whole)"},
+        raises_ensures={"StopIteration": ["self.end_reached"]},
+    )
+
+    # ---- validators: is_resource_modified ----------------------------------------------------
+    # datetimes: `ts` = the instant in whole POSIX seconds (naive values read as UTC), `us` = microseconds
+    DT = reg.model("DT", fields={"ts": "int", "us": "int"}, order_key=["ts", "us"])
+    reg.contract("model:DT.replace", prop=P, trusted=True, param_names=["self", "microsecond"], returns=DT,
+                 ensures=["result.ts == self.ts", "result.us == microsecond"],
+                 note="datetime.replace(microsecond=0)")
+    reg.contract("werkzeug/_internal.py:_dt_as_utc", prop=P, trusted=True, params={"dt": DT}, returns=DT,
+                 ensures=["result.ts == dt.ts", "result.us == dt.us"],
+                 note="same instant, expressed in UTC (naive datetimes are read as UTC): trusted datetime arithmetic")
+    # abstract results of the header parsers (their own contracts: C06/C07 and the bounded tier)
+    reg.ufunc("date_none", ["Optional[str]"], "bool")
+    reg.ufunc("date_ts", ["Optional[str]"], "int")
+    reg.ufunc("etags_star", ["Optional[str]"], "bool")
+    reg.ufunc("etags_strong", ["Optional[str]"], "Set[str]")
+    reg.ufunc("etags_weak", ["Optional[str]"], "Set[str]")
+    reg.ufunc("unq_etag", ["str"], "str")
+    reg.ufunc("gen_etag", ["bytes"], "str")
+    reg.contract("werkzeug/http.py:parse_date", prop=P, trusted=True, params={"value": "Optional[str]"},
+                 returns=("opt", ("obj", DT)),
+                 ensures=["(result is None) == (value is None or date_none(value))",
+                          "result is None or (result.ts == date_ts(value) and result.us == 0)"],
+                 note="HTTP dates have one-second resolution; text -> instant is email.utils' job")
+    ET = reg.model("ETags", cls="werkzeug/datastructures/etag.py:ETags",
+                   fields={"_strong": "Set[str]", "_weak": "Set[str]", "star_tag": "bool"})
+    reg.contract("werkzeug/http.py:parse_etags", prop=P, trusted=True, params={"value": "Optional[str]"}, returns=ET,
+                 ensures=["result.star_tag == etags_star(value)", "result._strong == etags_strong(value)",
+                          "result._weak == etags_weak(value)",
+                          "implies(value is None, not result.star_tag and not bool(result._strong) and not bool(result._weak))"],
+                 note="regex scanner; text-level contract is C06/C07 + bounded tier")
+    reg.contract("werkzeug/http.py:unquote_etag", prop=P, trusted=True, params={"etag": "Optional[str]"},
+                 returns="Tuple[Optional[str], Optional[bool]]",
+                 ensures=["implies(etag is not None and len(etag) > 0, result[0] is not None and result[0] == unq_etag(etag))",
+                          "implies(etag is None or len(etag) == 0, result[0] is None)"])
+    reg.contract("werkzeug/http.py:generate_etag", prop=P, trusted=True, params={"data": "bytes"}, returns="str",
+                 ensures=["result == gen_etag(data)"])
+    reg.spec("nonempty(v)", "etags_star(v) or bool(etags_strong(v)) or bool(etags_weak(v))")
+    reg.spec("eff_etag(etag, data)", "etag if etag is not None else (gen_etag(data) if data is not None else None)")
+    reg.spec("has_etag(etag, data)", "eff_etag(etag, data) is not None and len(eff_etag(etag, data)) > 0")
+    reg.spec("cur(etag, data)", "unq_etag(eff_etag(etag, data))")
+    reg.spec("date_unmodified(ims, lm)",
+             "ims is not None and not date_none(ims) and lm is not None and lm.ts <= date_ts(ims)")
+    reg.contract(
+        "werkzeug/sansio/http.py:is_resource_modified", prop=P,
+        params={"http_range": "Optional[str]", "http_if_range": "Optional[str]", "http_if_modified_since": "Optional[str]",
+                "http_if_none_match": "Optional[str]", "http_if_match": "Optional[str]", "etag": "Optional[str]",
+                "data": "Optional[bytes]", "last_modified": ("opt", ("obj", DT)), "ignore_if_range": ("const", True)},
+        returns="bool",
+        requires=["last_modified is None or (0 <= last_modified.us and last_modified.us < 1000000)"],
+        ensures=[
+            # If-Match: "unmodified" (-> 412) exactly when the header does not admit the current tag
+            "implies(has_etag(etag, data) and nonempty(http_if_match), "
+            "  (not result) == (not (etags_star(http_if_match) or cur(etag, data) in etags_strong(http_if_match))))",
+            # If-None-Match: weak comparison, takes precedence over the date when the response has an ETag
+            "implies(has_etag(etag, data) and not nonempty(http_if_match) and nonempty(http_if_none_match), "
+            "  (not result) == (etags_star(http_if_none_match) or cur(etag, data) in etags_strong(http_if_none_match) "
+            "                   or cur(etag, data) in etags_weak(http_if_none_match)))",
+            # otherwise the date decides, at one-second resolution
+            "implies(not (has_etag(etag, data) and (nonempty(http_if_match) or nonempty(http_if_none_match))), "
+            "  (not result) == date_unmodified(http_if_modified_since, last_modified))",
+        ],
+        raises={"TypeError": "etag is not None and data is not None"},
     )
